@@ -427,6 +427,68 @@ def explore(fn, params, max_paths=64, feas_timeout=10.0, stats=None, max_decisio
     set_ctx(None)
 
 
+def pins_from_inputs(inputs):
+    """the inputs a float replay recorded (name -> value | list | [re, im] pairs) as exact rationals per variable name"""
+    from fractions import Fraction
+    pin = {}
+
+    def fr(v):
+        return Fraction(float(v))
+    for name, v in (inputs or {}).items():
+        if isinstance(v, (int, float)):
+            pin[name] = fr(v)
+        elif isinstance(v, (list, tuple)):
+            if len(v) == 2 and all(isinstance(t, (int, float)) for t in v):
+                # either a complex scalar [re, im] or a real vector of length 2: provide both spellings
+                pin[name + "_re"], pin[name + "_im"] = fr(v[0]), fr(v[1])
+                pin[name + "0"], pin[name + "1"] = fr(v[0]), fr(v[1])
+            else:
+                for i, t in enumerate(v):
+                    if isinstance(t, (list, tuple)) and len(t) == 2:
+                        pin["%s%d_re" % (name, i)], pin["%s%d_im" % (name, i)] = fr(t[0]), fr(t[1])
+                    elif isinstance(t, (int, float)):
+                        pin["%s%d" % (name, i)] = fr(t)
+    return pin
+
+
+def run_exact(fn, params, inputs, label):
+    """re-run a case in the symbolic layer with every input pinned to the exact rational value a float probe used.
+    -> 'holds' (every claim carrying `label` is exactly true on these inputs), 'fails' (one is exactly false),
+       'singular' (an exact zero divisor is met: the point is outside the domain of the computation),
+       'unknown' (a claim still contains symbols - roots, uninterpreted values -, or the run did not reach the label)"""
+    P.reset_vars()
+    c = Context([], None, max_decisions=400)
+    c.pin = pins_from_inputs(inputs)
+    set_ctx(c)
+    h = Harness('sym')
+    try:
+        try:
+            fn(h, **params)
+        except SymZeroDivision:
+            return 'singular'           # exact arithmetic divides by zero on these inputs: the float run computed on rounding noise
+        except BaseException:
+            return 'unknown'
+        if c.decisions:
+            return 'unknown'            # a branch on a value that is still symbolic
+        verdicts = []
+        for cl in h.claims:
+            if cl.label != label:
+                continue
+            if cl.kind == 'eq':
+                g = cl.goal
+                d_re, d_im = g.a.re - g.b.re, g.a.im - g.b.im
+                if not (d_re.is_const() and d_im.is_const()):
+                    return 'unknown'
+                verdicts.append(d_re.is_zero() and d_im.is_zero())
+            else:
+                return 'unknown'
+        if not verdicts:
+            return 'unknown'
+        return 'holds' if all(verdicts) else 'fails'
+    finally:
+        set_ctx(None)
+
+
 def claim_query(cl, sep=None, twin=False, rel=None):
     """SMT text for a claim (negated) or for its reachability twin"""
     nz = not (cl.note == "no-atoms")
